@@ -117,13 +117,13 @@ impl<'a> Lexer<'a> {
     }
 
     fn number(&mut self, start: usize, c: char) -> TokenKind {
-        match self.s.peek() {
-            Some(c2) if !c2.is_ascii_digit() => match c {
+        // a sign is only part of a number when a digit follows (also not at the end of the input)
+        if !self.s.at(|c2: char| c2.is_ascii_digit()) {
+            match c {
                 '+' => return TokenKind::Plus,
                 '-' => return TokenKind::Minus,
                 _ => {}
-            },
-            _ => {}
+            }
         }
 
         let mut base = 10;
